@@ -1050,6 +1050,66 @@ func c10EndToEnd(rep *Report) {
 			}
 		}
 	}
+	// a rewrite of the optimizer reaches EVERY slot that holds the rewritten node - also the two slots of `a ?: b`, which the
+	// parser fills with one shared node - and applies wherever a bound becomes a literal only by folding: the optimized
+	// program answers like the unoptimized one, and no membership in a literal range is left in the tree
+	for _, c := range []c10E2E{
+		{"in-range as the shared operand of ?:", "(I not in 1..3) ?: 7"},
+		{"in-range as the shared operand of ?:", "(I in 1..3) ?: 7"},
+		{"in-range as the shared operand of ?:", "(I not in 5..9) ?: 7"},
+		{"in-array as the shared operand of ?:", "(I not in [1, 2, 3]) ?: 7"},
+		{"in-range under ?: in a closure", "map(A, {(# not in 15..25) ?: 0})"},
+		{"in-range with a folded lower bound", "I in -1..5"},
+		{"in-range with a folded lower bound", "I in +1..5"},
+		{"in-range with a folded upper bound", "I in 1..2 * 3"},
+		{"in-range with folded bounds in a closure", "map(A, {# in -1..5 * 5})"},
+		{"in-range with folded bounds as map value", "{\"k\": I in -(1)..+(5)}"},
+		{"in-range with folded bounds as ?: operand", "(I in -1..5) ?: false"},
+	} {
+		rep.Evaluations++
+		rep.hist("e2e " + c.position)
+		input := map[string]interface{}{"e2e": c.src, "optimizer": "on vs off", "position": c.position}
+		rp, _ := json.Marshal(input)
+		want, werr := c10RunSrc(c.src, expr.Optimize(false))
+		got, gerr := c10RunSrc(c.src, expr.Optimize(true))
+		if werr != nil {
+			rep.fail(Failure{Key: "C10-e2e-baseline", What: "the unoptimized program does not compile and run", Input: input, Want: "a result", Got: werr.Error(), Replay: string(rp)})
+			continue
+		}
+		if gerr != nil || !reflect.DeepEqual(got, want) {
+			rep.fail(Failure{Key: "C10-e2e-optimizer", What: "an optimizer rewrite does not reach every slot of the rewritten node: " + c.position, Input: input,
+				Want: fmt.Sprintf("%v (= unoptimized)", want), Got: fmt.Sprintf("%v (error %v)", got, gerr), Replay: string(rp)})
+			continue
+		}
+		tree, err := parser.Parse(c.src)
+		if err != nil {
+			panic(err)
+		}
+		config := conf.New(c10Env())
+		var oerr error
+		if p := c10Safe(func() {
+			if _, oerr = checker.Check(tree, config); oerr == nil {
+				oerr = optimizer.Optimize(&tree.Node, config)
+			}
+		}); p != nil || oerr != nil {
+			rep.fail(Failure{Key: "C10-e2e-baseline", What: "checker.Check + optimizer.Optimize fail", Input: input, Want: "an optimized tree", Got: fmt.Sprintf("error %v panic %v", oerr, p), Replay: string(rp)})
+			continue
+		}
+		left := ""
+		c10Each(tree.Node, func(n ast.Node) {
+			if b, ok := n.(*ast.BinaryNode); ok && (b.Operator == "in" || b.Operator == "not in") {
+				if r, ok := b.Right.(*ast.BinaryNode); ok && r.Operator == ".." {
+					left = "membership in a range left in the optimized tree"
+				}
+				if _, ok := b.Right.(*ast.ArrayNode); ok {
+					left = "membership in an array literal left in the optimized tree"
+				}
+			}
+		})
+		if left != "" {
+			rep.fail(Failure{Key: "C10-e2e-optimizer", What: "an optimization does not apply at position: " + c.position, Input: input, Want: "the membership rewritten by optimizer.Optimize", Got: left, Replay: string(rp)})
+		}
+	}
 	// optimizations wherever the sub-expression occurs: after optimizer.Optimize no foldable node is left
 	for _, c := range []c10E2E{
 		{"constant folding in sliced operand", "[1 + 2, 4][0:1]"},
